@@ -1115,6 +1115,18 @@ fn pcf_map(schema: &Map<String, JsonValue>, defined_names: &mut HashSet<String>)
         }
     }
 
+    // A key that is structural for another kind of schema only (for example `size` on a record or
+    // `items` on an enum) is a custom attribute of this one, not something relevant to parsing data.
+    let relevant: &[&str] = match typ {
+        Some("record") => &["type", "name", "fields"],
+        Some("enum") => &["type", "name", "symbols"],
+        Some("fixed") => &["type", "name", "size"],
+        Some("array") => &["type", "items"],
+        Some("map") => &["type", "values"],
+        // a record field, or a primitive type with attributes
+        _ => &["type", "name"],
+    };
+
     let mut fields = Vec::new();
     for (k, v) in schema {
         // Reduce primitive types to their simple form. ([PRIMITIVE] rule)
@@ -1126,7 +1138,8 @@ fn pcf_map(schema: &Map<String, JsonValue>, defined_names: &mut HashSet<String>)
         }
 
         // Strip out unused fields ([STRIP] rule)
-        if field_ordering_position(k).is_none()
+        if !relevant.contains(&k.as_str())
+            || field_ordering_position(k).is_none()
             || k == "default"
             || k == "doc"
             || k == "aliases"
